@@ -204,11 +204,14 @@ def insBefore (v : Nat) : List Nat → List Nat
 def insertPairL (rows : Rows) (u v : Nat) : Rows :=
   if scanL v (rows.getD u []) then (rows.modify u (insBefore v)).modify v (insBefore u) else rows
 
-def stepL (S : Sys) (c2 : Rat) (rows : Rows) (uv : Nat × Nat) : Rows :=
-  if accept S c2 uv then insertPairL rows uv.1 uv.2 else rows
+/-- one compared pair; `acc` is the acceptance test (`accept S c2` in the algorithm). -/
+def stepLW (acc : Nat × Nat → Bool) (rows : Rows) (uv : Nat × Nat) : Rows :=
+  if acc uv then insertPairL rows uv.1 uv.2 else rows
 
-def runL (S : Sys) (c2 : Rat) (cs : List (Nat × Nat)) : Rows :=
-  cs.foldl (stepL S c2) (List.replicate S.natoms [])
+def runLW (acc : Nat × Nat → Bool) (n : Nat) (cs : List (Nat × Nat)) : Rows :=
+  cs.foldl (stepLW acc) (List.replicate n [])
+
+def runL (S : Sys) (c2 : Rat) (cs : List (Nat × Nat)) : Rows := runLW (accept S c2) S.natoms cs
 
 /-- the neighbor lists of `nlist(system, cutoff)`, list storage. -/
 def nlistL (S : Sys) (cutoff : Rat) : Rows := runL S (cutoff * cutoff) (cands S cutoff)
@@ -268,16 +271,20 @@ def insertPairA (junk : Nat → Nat → Nat) (delta : Nat) (st : ArrState) (u v 
     ⟨st1.maxn, rows5⟩
   else st
 
-def stepA (junk : Nat → Nat → Nat) (delta : Nat) (S : Sys) (c2 : Rat) (st : ArrState) (uv : Nat × Nat) :
+def stepAW (junk : Nat → Nat → Nat) (delta : Nat) (acc : Nat × Nat → Bool) (st : ArrState) (uv : Nat × Nat) :
     ArrState :=
-  if accept S c2 uv then insertPairA junk delta st uv.1 uv.2 else st
+  if acc uv then insertPairA junk delta st uv.1 uv.2 else st
 
 /-- `np.empty((natoms, initialsize + 1))` with column 0 set to 0. -/
 def initA (junk : Nat → Nat → Nat) (n init : Nat) : ArrState :=
   ⟨init, (List.range n).map fun r => 0 :: (List.range init).map (fun k => junk r (k + 1))⟩
 
+def runAW (junk : Nat → Nat → Nat) (init delta : Nat) (acc : Nat × Nat → Bool) (n : Nat)
+    (cs : List (Nat × Nat)) : ArrState :=
+  cs.foldl (stepAW junk delta acc) (initA junk n init)
+
 def runA (junk : Nat → Nat → Nat) (init delta : Nat) (S : Sys) (c2 : Rat) (cs : List (Nat × Nat)) : ArrState :=
-  cs.foldl (stepA junk delta S c2) (initA junk S.natoms init)
+  runAW junk init delta (accept S c2) S.natoms cs
 
 /-- the array returned by `nlist(system, cutoff, initialsize, deltasize)`. -/
 def nlistA (junk : Nat → Nat → Nat) (init delta : Nat) (S : Sys) (cutoff : Rat) : ArrState :=
@@ -346,11 +353,21 @@ def parse (txt : List Char) : Option Rows :=
 
 def ratAbs' (r : Rat) : Rat := if r < 0 then -r else r
 
-/-- some pair `i < j` has `|dmag2 - cutoff²| ≤ tol * cutoff²`. -/
-def nearCutoff (S : Sys) (cutoff tol : Rat) : Bool :=
+/-- `dist2 S j i` for all `j < i` (row `i`, column `j`): the driver evaluates each distance once. -/
+def distTable (S : Sys) : Array (Array Rat) :=
+  ((List.range S.natoms).map fun i => ((List.range i).map fun j => dist2 S j i).toArray).toArray
+
+def tableDist (t : Array (Array Rat)) (u v : Nat) : Rat :=
+  if u < v then (t.getD v #[]).getD u 0 else (t.getD u #[]).getD v 0
+
+/-- `accept S c2` read off the table (`dist2` is symmetric: theorem `dist2_symm`). -/
+def tableAccept (t : Array (Array Rat)) (c2 : Rat) (uv : Nat × Nat) : Bool :=
+  (uv.1 != uv.2) && decide (tableDist t uv.1 uv.2 < c2)
+
+/-- some pair `j < i` has `|dmag2 - cutoff²| ≤ tol * cutoff²`. -/
+def nearCutoff (t : Array (Array Rat)) (cutoff tol : Rat) : Bool :=
   let c2 := cutoff * cutoff
-  (List.range S.natoms).any fun i => (List.range i).any fun j =>
-    decide (ratAbs' (dist2 S j i - c2) ≤ tol * c2)
+  t.any fun row => row.any fun d => decide (ratAbs' (d - c2) ≤ tol * c2)
 
 /-- `x` within `tol * c` of one of the bin edges `lo + k c` or of `hi`. -/
 def nearEdge1 (lo hi c tol x : Rat) : Bool :=
